@@ -77,6 +77,7 @@ def gen_cases(tier, seed):
         cfg["seg"] = rng.choice([3, 4, 5, 10])  # prefixes which are not a multiple of the checksum word size
         cases.append({"cfg": cfg, "side": rng.choice("SD") if i % 3 else "S", "round": rng.randrange(0, 14), "wrong": rng.random() < 0.1,
                       "drop": None, "rand": seed * 1_000_003 + i})
+        cases[-1]["pacing"] = rng.choice([None, None, {"src_calls": 3}, {"src_calls": 6}, {"dst_calls": 3}, {"src_calls": 2, "dst_calls": 2}, {"dst_idle": 2}, {"src_idle": 2, "dst_calls": 2}])
         if i % 3 == 1:
             # before (or in the same round as) the cancel the user issues a put request towards another entity: refused, no influence
             cases[-1]["busy_put"] = rng.randrange(0, cases[-1]["round"] + 1)
@@ -98,7 +99,7 @@ def run_case(case):
         acts = {case["round"]: [("cancel", case["side"]) + (("wrong",) if case["wrong"] else ())]}
         if case.get("busy_put") is not None:
             acts.setdefault(case["busy_put"], []).insert(0, ("put_third",))
-        r = Runner(w, plan=plan, actions=acts, max_expiries=30, max_rounds=2000)
+        r = Runner(w, plan=plan, actions=acts, max_expiries=30, max_rounds=2000, pacing=case.get("pacing"))
         # observer for the file presence clause, evaluated inside the indication callback
         md_seen = {"v": False}
 
